@@ -8,6 +8,8 @@ import (
 	"strings"
 	"sync"
 	"time"
+
+	"github.com/palomachain/paloma/v2/zzverif/hist"
 )
 
 // Build against the patched runtime: the harness owns map iteration order, map
@@ -124,6 +126,6 @@ func mapEnd(d dev, h *history) {
 
 // The default wall clock of an execution sits at chain time (as on a node that
 // executes blocks live); baseSkew moves the real clock there.
-var baseSkew = func() int64 { return 1_700_000_000 - time.Now().Unix() }()
+var baseSkew = func() int64 { return hist.Genesis.Unix() - time.Now().Unix() }()
 
 func setClockSkew(sec int64) { time.VerifSkewSeconds = baseSkew + sec }
